@@ -1,3 +1,4 @@
+import RodbusModel.Props.C17Write
 import RodbusModel.Props.C17
 /- axiom audit for C17: every line must report a subset of {propext, Classical.choice, Quot.sound} -/
 #print axioms Rodbus.C17.broadcast_iff
@@ -13,3 +14,6 @@ import RodbusModel.Props.C17
 #print axioms Rodbus.C17.unit0_unconfigured_on_tcp
 #print axioms Rodbus.C17.silent_unless_addressed_or_denied
 #print axioms Rodbus.C17.denied_answered_even_if_unconfigured
+#print axioms Rodbus.C01W.unanswered_keeps_budget
+#print axioms Rodbus.C01W.broadcast_survives_write_fault
+#print axioms Rodbus.C01W.foreign_frames_invisible_to_fault
